@@ -76,6 +76,8 @@ type corrInfo struct {
 
 var corrCache = map[*ssa.Function]*corrInfo{}
 
+var corrInKnownNonNil bool
+
 const corrMaxClasses = 32
 
 func corrOf(f *ssa.Function) *corrInfo {
@@ -758,8 +760,14 @@ func (ci *corrInfo) evalVal(v ssa.Value, st *pathFacts, depth int) evalRes {
 	if curCtx != nil && depth < 3 {
 		switch v.Type().Underlying().(type) {
 		case *types.Pointer, *types.Interface, *types.Chan, *types.Signature, *types.Map, *types.Slice:
-			if curCtx.knownNonNil(v, map[ssa.Value]bool{}) {
-				return evalRes{kind: 3}
+			// (knownNonNil asks path questions of its own; those do not ask it again)
+			if !corrInKnownNonNil {
+				corrInKnownNonNil = true
+				nn := curCtx.knownNonNil(v, map[ssa.Value]bool{})
+				corrInKnownNonNil = false
+				if nn {
+					return evalRes{kind: 3}
+				}
 			}
 			// decided by a nil test all of whose paths to the block being left pass one of its edges
 			if ci.at != nil {
